@@ -1486,16 +1486,15 @@ func redact(s *string) {
 // Redacted returns a copy of the config with sensitive values redacted.
 // This is safe to log or display to users.
 func (c *Config) Redacted() *Config {
-	// Create a deep copy by marshaling and unmarshaling
-	data, err := yaml.Marshal(c)
-	if err != nil {
-		return c
-	}
-
-	redacted := &Config{}
-	if err := yaml.Unmarshal(data, redacted); err != nil {
-		return c
-	}
+	// Copy the struct and every slice whose elements are modified below, so
+	// the original is never touched. (A YAML round trip is not used for the
+	// copy: it can fail for unusual string values, and there is no safe
+	// fallback when it does.)
+	cp := *c
+	redacted := &cp
+	redacted.Peers = append([]PeerConfig(nil), c.Peers...)
+	redacted.Listeners = append([]ListenerConfig(nil), c.Listeners...)
+	redacted.SOCKS5.Auth.Users = append([]SOCKS5UserConfig(nil), c.SOCKS5.Auth.Users...)
 
 	// Redact global TLS key
 	redact(&redacted.TLS.Key)
